@@ -434,6 +434,8 @@ def judge(ctx, case):
         key = 'interpreter-level-failure-' + type(exc).__name__
         if isinstance(exc, RecursionError) and within:
             key = 'python-recursion-before-callstack-limit'
+            ctx.tab('recursion_error_at_run_tape_nesting',
+                    mon.max_py_depth // 20 * 20)
         if isinstance(exc, OverflowError) and entropy and \
                 max(entropy) > ms:
             key = 'entropy-request-over-item-limit'
